@@ -283,6 +283,7 @@ type c39Expect struct {
 	Kinds     map[string]int `json:"kinds"`
 	// DevStdout: output if a continue placed directly in its loop's body did nothing (known deviation)
 	DevStdout string `json:"dev_stdout,omitempty"`
+	HasDev    bool   `json:"has_dev,omitempty"`
 }
 
 func init() {
@@ -325,7 +326,7 @@ func init() {
 				if in.directRun > 0 {
 					dv := &cfInterp{funcs: in.funcs, kinds: map[string]int{}, directNoop: true}
 					if sg := dv.call(main.Name); sg.kind != "overflow" {
-						e.DevStdout = dv.out.String()
+						e.DevStdout, e.HasDev = dv.out.String(), true
 					}
 				}
 				e.NT = in.ctlRun > 0 && in.ifTaken > 0 && in.ifSkipped > 0
@@ -363,7 +364,7 @@ func init() {
 					}
 				}
 				sig := kind + ":" + strings.Join(which, "+")
-				if e.DevStdout != "" && got == e.DevStdout && got != e.Stdout {
+				if e.HasDev && got == e.DevStdout && got != e.Stdout {
 					sig = "continue:direct-child-noop"
 				}
 				x.Viol(sig, fmt.Sprintf("program\n%s\ngave stdout=%q exit=%d stderr=%q; reference interpreter says stdout=%q exit=%d (asserted=%v)", e.Src, got, run.Exit, trunc(string(run.Stderr), 300), e.Stdout, e.Exit, e.ExitKnown), c, map[string]any{"stdout": got, "exit": run.Exit}, map[string]any{"stdout": e.Stdout, "exit": e.Exit})
